@@ -89,6 +89,9 @@ def check_C07(ctx):
         ctx.rule("RT-REMOVE").floor("remove_paths[%s]" % cfg, 1, cfg)
         router.rule_forward_closure(ctx, cfg, F)
         ctx.rule("RT-FORWARD").floor("forward_closures[%s]" % cfg, 1, cfg)
+        router.rule_batch_order(ctx, cfg, F)
+        ctx.rule("RT-ORDER").floor("select_consumers[%s]" % cfg, 2, cfg)
+        rset.rule_set_id(ctx, cfg, F, "unix" if cfg == "K1" else "inprocess")
     ctx.assume("Result::map runs its closure iff the receiver is Ok; crossbeam and the receiver set deliver in order (C06)")
 
 
@@ -353,6 +356,7 @@ def check_C06(ctx):
         ctx.rule("SET-ID").floor("event_ids[%s]" % cfg, 2, cfg)
         rset.rule_set_unix(ctx, cfg, F)
         ctx.rule("SET-DRAIN").floor("member_reads[%s]" % cfg, 1, cfg)
+        router.rule_batch_order(ctx, cfg, F, "SET-ORDER")
         ctx.rule("SET-CLOSE").floor("closed_paths[%s]" % cfg, 1, cfg)
         ctx.rule("SET-EINTR").floor("poll_sites[%s]" % cfg, 1, cfg)
         model = fd.build_model(F)
@@ -401,6 +405,8 @@ def check_C04(ctx):
         send.rule_dedicated_last(ctx, cfg, F)
         ipcl.rule_split_order(ctx, cfg, F)
         ctx.rule("SPLIT-ORDER").floor("order_sites[%s]" % cfg, 3, cfg)
+        ipcl.rule_split_classify(ctx, cfg, F)
+        ctx.rule("SPLIT-CLASSIFY").floor("descriptor_loads[%s]" % cfg, 1, cfg)
     ctx.assume("the kernel passes descriptors in SCM_RIGHTS in array order")
 
 
@@ -450,6 +456,10 @@ def check_C05(ctx):
     for cfg, F in ctx.configs(["K1", "K3"]):
         ipcl.rule_shm_sentinel(ctx, cfg, F)
         ctx.rule("SHM-SENTINEL").floor("sentinel_pairs[%s]" % cfg, 1, cfg)
+        ipcl.rule_idx_pos(ctx, cfg, F)
+        ctx.rule("IDX-POS").floor("table_accesses[%s]" % cfg, 2, cfg)
+    for cfg, F in ctx.configs(["K1", "K2"]):
+        ipcl.rule_split_classify(ctx, cfg, F)
     for cfg, F in ctx.configs(["K3"]):
         ipcl.rule_shm_inproc(ctx, cfg, F)
         ctx.rule("SHM-INPROC").floor("inproc_constructions[%s]" % cfg, 3, cfg)
@@ -495,6 +505,7 @@ def check_C20(ctx):
         asyn.rule_as_order(ctx, cfg, F)
         ctx.rule("AS-ORDER").floor("to_stream[%s]" % cfg, 1, cfg)
         asyn.rule_as_loop(ctx, cfg, F)
+        router.rule_batch_order(ctx, cfg, F, "AS-BATCH-ORDER")
         ctx.rule("AS-DRAIN").floor("routing_fns[%s]" % cfg, 1, cfg)
         ctx.rule("AS-DRAIN").floor("install_sites[%s]" % cfg, 1, cfg)
         ctx.rule("AS-FWD").floor("message_paths[%s]" % cfg, 1, cfg)
